@@ -228,6 +228,8 @@ spif_mbuff_init_from_fp(spif_mbuff_t self, FILE *fp)
         file_size = ftell(fp);
         fseek(fp, file_pos, SEEK_SET);
         LOWER_BOUND(file_size, 0);
+        /* Only what lies ahead of the current position can be read. */
+        file_size = (file_size > (spif_memidx_t) file_pos) ? (file_size - (spif_memidx_t) file_pos) : (0);
         if (file_size <= 0) {
             spif_mbuff_init(self);
             return FALSE;
@@ -282,6 +284,10 @@ spif_mbuff_init_from_fd(spif_mbuff_t self, int fd)
             FREE(self->buff);
         }
     } else {
+        /* Only what lies ahead of the current position can be read. */
+        if (file_pos > 0) {
+            file_size = (file_size > (spif_memidx_t) file_pos) ? (file_size - (spif_memidx_t) file_pos) : (0);
+        }
         self->len = self->size = file_size;
         self->buff = (spif_byteptr_t) MALLOC(self->size);
 
